@@ -66,6 +66,13 @@ def r11_1(ctx: Ctx):
         # path outside the class reads, and no caller uses what its methods return
         if f.cls is None or f.cls in (sd.cls,) or not f.cls.module.name.startswith('iOpt.'):
             return False
+        # a utility class only: not one of the classes that carry the search itself
+        core = {ctx.ix.find_cls(n_) for n_ in ('Method', 'Process', 'Solver', 'SearchData', 'SearchDataItem',
+                                               'CharacteristicsQueue', 'Evolvent', 'OptimizationTask', 'Problem',
+                                               'Solution', 'SolverParameters', 'Listener')}
+        core.discard(None)
+        if any(f.cls is c_ or f.cls.is_subclass_of(c_) for c_ in core):
+            return False
         own = [m_ for m_ in f.cls.methods.values() if m_.kind == 'function']
         tainted_attrs, tainted_ret = set(), set()
         for _ in range(3):
